@@ -36,7 +36,7 @@ def Arch.is32 : Arch → Bool
 inductive Err where
   | ok | invalidArgument | invalidState | tooLarge | invalidLabel | labelAlreadyBound | invalidSection
   | invalidRelocEntry | relocOffsetOutOfRange | invalidInstruction | invalidAddress | invalidDisplacement
-  | invalidOperandSize | expressionLabelNotBound
+  | invalidOperandSize | expressionLabelNotBound | invalidAddress64Bit
   deriving DecidableEq, Repr, Inhabited
 
 def Err.name : Err → String
@@ -45,7 +45,7 @@ def Err.name : Err → String
   | .invalidRelocEntry => "InvalidRelocEntry" | .relocOffsetOutOfRange => "RelocOffsetOutOfRange"
   | .invalidInstruction => "InvalidInstruction" | .invalidAddress => "InvalidAddress"
   | .invalidDisplacement => "InvalidDisplacement" | .invalidOperandSize => "InvalidOperandSize"
-  | .expressionLabelNotBound => "ExpressionLabelNotBound"
+  | .expressionLabelNotBound => "ExpressionLabelNotBound" | .invalidAddress64Bit => "InvalidAddress64Bit"
 
 /-- `Section` (codeholder.h): buffer, virtual size, alignment, order, offset (`kNoSectionOffset = ~0` until `flatten`). -/
 structure Section where
